@@ -54,6 +54,6 @@ package utils
 //@   props C07 C12 C01
 //@   requires len(buf) >= 4
 //@   pure
-//@   ensures [C07] hasAt(buf, 0, "MM\x00*") ==> r0 == BigEndian
-//@   ensures [C07] hasAt(buf, 0, "II*\x00") ==> r0 == LittleEndian
-//@   ensures [C07] !hasAt(buf, 0, "MM\x00*") && !hasAt(buf, 0, "II*\x00") ==> r0 == UnknownEndian
+//@   ensures [C07 C12] hasAt(buf, 0, "MM\x00*") ==> r0 == BigEndian
+//@   ensures [C07 C12] hasAt(buf, 0, "II*\x00") ==> r0 == LittleEndian
+//@   ensures [C07 C12] !hasAt(buf, 0, "MM\x00*") && !hasAt(buf, 0, "II*\x00") ==> r0 == UnknownEndian
